@@ -176,6 +176,9 @@ def seed_all(s=12345):
 
 #  (input name, form) applied by Driver.arr - see mc/forms.py
 FORM = None
+#  verbosity handed to every constructor (the `silence0` form of mc/forms.py
+#  sets it to 0: results must not depend on what is printed)
+SILENCE = 3
 
 
 class Driver:
@@ -344,7 +347,7 @@ class NetworkDriver(Driver):
                          directed=model["directed"],
                          node_weights=None if model["w"] is None else
                          self.arr("node_weights", model["w"], float),
-                         silence_level=3)
+                         silence_level=SILENCE)
         self.restore_la(net, model)
         return net
 
@@ -502,7 +505,7 @@ def geo_grid(n=6):
     from pyunicorn.core import GeoGrid
     return _supplied("GeoGrid", GeoGrid(
         time_seq=np.arange(10), lat_seq=np.array(LAT6[:n], float),
-        lon_seq=np.array(LON6[:n], float), silence_level=3))
+        lon_seq=np.array(LON6[:n], float), silence_level=SILENCE))
 
 
 def plain_grid(n=6):
@@ -510,7 +513,7 @@ def plain_grid(n=6):
     return _supplied("Grid", Grid(
         time_seq=np.arange(10),
         space_seq=np.array([LAT6[:n], LON6[:n]], dtype=float),
-        silence_level=3))
+        silence_level=SILENCE))
 
 
 class SpatialDriver(NetworkDriver):
@@ -527,7 +530,7 @@ class SpatialDriver(NetworkDriver):
     def construct(self, model):
         net = self.cls()(grid=plain_grid(),
                          adjacency=self.arr("adjacency", model["A"]),
-                         directed=model["directed"], silence_level=3)
+                         directed=model["directed"], silence_level=SILENCE)
         if model["w"] is not None:
             net.node_weights = model["w"]
         self.restore_la(net, model)
@@ -596,7 +599,7 @@ class GeoDriver(SpatialDriver):
         net = self.cls()(grid=geo_grid(),
                          adjacency=self.arr("adjacency", model["A"]),
                          directed=model["directed"],
-                         node_weight_type=model["nwt"], silence_level=3)
+                         node_weight_type=model["nwt"], silence_level=SILENCE)
         if model["w"] is not None:
             net.node_weights = model["w"]
         self.restore_la(net, model)
@@ -665,11 +668,11 @@ class ResDriver(Driver):
         grid = _supplied("GeoGrid", GeoGrid(
             time_seq=np.arange(10),
             lat_seq=np.absolute(np.linspace(-90, 90, n)),
-            lon_seq=np.linspace(-180, 180, n), silence_level=3))
+            lon_seq=np.linspace(-180, 180, n), silence_level=SILENCE))
         return self.cls()(self.arr("resistances", RES_R[model["R"]], float),
                           grid=grid,
                           adjacency=self.arr("adjacency", RES_A, "int8"),
-                          silence_level=3)
+                          silence_level=SILENCE)
 
     def mutators(self, model):
         ms = [("update_resistances(#%d)" % i, ["update_resistances", i])
@@ -752,7 +755,7 @@ class ClimateDriver(Driver):
                           similarity_measure=self.similarity(model),
                           non_local=model["non_local"], **_thr(model),
                           directed=model["directed"],
-                          node_weight_type="surface", silence_level=3)
+                          node_weight_type="surface", silence_level=SILENCE)
 
     def mutators(self, model):
         ms = [("set_threshold(%g)" % t, ["set_threshold", t])
@@ -805,7 +808,7 @@ def climate_data(anomalies=False, window=None, T=10, time_cycle=5,
            + 0.1 * ((t * 7 + np.arange(N)[None, :] * 3) % 5))
     from pyunicorn.core import GeoGrid
     grid = GeoGrid(time_seq=np.arange(T), lat_seq=np.array(LAT6, float),
-                   lon_seq=np.array(LON6, float), silence_level=3)
+                   lon_seq=np.array(LON6, float), silence_level=SILENCE)
     obs = obs.astype(float)
     if second_layer:
         obs = obs[:, ::-1] * 0.7 + 0.1
@@ -816,7 +819,7 @@ def climate_data(anomalies=False, window=None, T=10, time_cycle=5,
         rec["observable"] = obs
     return _supplied("ClimateData", ClimateData(
         observable=obs, grid=grid, time_cycle=time_cycle,
-        anomalies=anomalies, window=window, silence_level=3))
+        anomalies=anomalies, window=window, silence_level=SILENCE))
 
 
 class TsonisDriver(ClimateDriver):
@@ -835,7 +838,7 @@ class TsonisDriver(ClimateDriver):
         return self.cls()(climate_data(T=36, time_cycle=12),
                           **_thr(model),
                           non_local=model["non_local"],
-                          winter_only=model["winter_only"], silence_level=3)
+                          winter_only=model["winter_only"], silence_level=SILENCE)
 
     def mutators(self, model):
         ms = [("set_threshold(%g)" % t, ["set_threshold", t])
@@ -911,7 +914,7 @@ class RPDriver(Driver):
         if model.get("sparse"):
             kw["sparse_rqa"] = True
         return self.cls()(*self.ctor_args(model), metric=model["metric"],
-                          silence_level=3, **kw)
+                          silence_level=SILENCE, **kw)
 
     def mutators(self, model):
         setters = self.setters
@@ -1065,7 +1068,7 @@ class JRPDriver(RPDriver):
             kw.update(dim=tuple(model["emb"][0]), tau=tuple(model["emb"][1]))
         return self.cls()(*self.ctor_args(model),
                           metric=tuple(model["metric"]),
-                          silence_level=3, **kw)
+                          silence_level=SILENCE, **kw)
 
     def mutators(self, model):
         return [("%s(%s)" % s, [s[0], s[1]]) for s in self.setters
@@ -1129,7 +1132,7 @@ class ISRNDriver(RPDriver):
     def construct(self, model):
         kw = {RP_KW[model["how"][0]]: tuple(model["how"][1])}
         return self.cls()(*self.ctor_args(model), metric=model["metric"],
-                          silence_level=3, **kw)
+                          silence_level=SILENCE, **kw)
 
     def mutators(self, model):
         return [("%s(%s)" % s, [s[0], s[1]]) for s in self.setters
@@ -1188,7 +1191,7 @@ class VGDriver(NetworkDriver):
         return [{"A": None, "directed": False, "w": None, "la": {}}]
 
     def construct(self, model):
-        vg = self.cls()(self.arr("time_series", TS_A[:6]), silence_level=3)
+        vg = self.cls()(self.arr("time_series", TS_A[:6]), silence_level=SILENCE)
         if model["A"] is not None:
             vg.adjacency = np.array(model["A"])
         if model["w"] is not None:
@@ -1260,7 +1263,7 @@ class SurrogatesDriver(Driver):
 
     def construct(self, model):
         s = self.cls()(self.arr("original_data", SUR_DATA, float),
-                       silence_level=3)
+                       silence_level=SILENCE)
         if model["normalized"]:
             s.normalize_original_data()
         if model["emb"]:
@@ -1437,7 +1440,7 @@ class CouplingDriver(_QueryOnly):
         t = np.arange(40)[:, None]
         data = (np.sin(0.9 * t + np.arange(4)[None, :])
                 + 0.3 * ((t * 7 + np.arange(4)[None, :] * 5) % 11) / 11.)
-        return self.cls()(self.arr("data", data, float), silence_level=3)
+        return self.cls()(self.arr("data", data, float), silence_level=SILENCE)
 
     def has_attr(self, a):
         return False
@@ -1506,7 +1509,7 @@ class GeoGridDriver(_QueryOnly):
         return self.cls()(time_seq=self.arr("time_seq", np.arange(10.)),
                           lat_seq=self.arr("lat_seq", LAT6, float),
                           lon_seq=self.arr("lon_seq", LON6, float),
-                          silence_level=3)
+                          silence_level=SILENCE)
 
     def resolve(self, obj, v):
         if v == "REGION":
@@ -1536,7 +1539,7 @@ class GridDriver(_QueryOnly):
     def construct(self, model):
         return self.cls()(time_seq=self.arr("time_seq", np.arange(10.)),
                           space_seq=self.arr("space_seq", [LAT6, LON6],
-                                             float), silence_level=3)
+                                             float), silence_level=SILENCE)
 
     def has_attr(self, a):
         return a in ("N", "@str")
@@ -1570,7 +1573,7 @@ class _DataClimateDriver(ClimateDriver):
         return dict(non_local=model["non_local"], **_thr(model))
 
     def construct(self, model):
-        return self.cls()(self.data(), silence_level=3, **self.kwargs(model))
+        return self.cls()(self.data(), silence_level=SILENCE, **self.kwargs(model))
 
     def mutators(self, model):
         ms = [("set_threshold(%g)" % t, ["set_threshold", t])
@@ -1736,7 +1739,7 @@ class EventSeriesClimateDriver(_DataClimateDriver):
                          symmetrization=model["sym"],
                          threshold_method="quantile", threshold_values=0.7,
                          threshold_types="above",
-                         non_local=model["non_local"], silence_level=3)
+                         non_local=model["non_local"], silence_level=SILENCE)
         if model.get("rho") is not None:
             obj.set_link_density(model["rho"])
         elif model["t"] != 0:
@@ -1799,7 +1802,7 @@ class CoupledTsonisDriver(_DataClimateDriver):
         d1 = climate_data(T=24, time_cycle=12)
         # the second layer differs from the first
         d2 = climate_data(T=24, time_cycle=12, second_layer=True)
-        return self.cls()(d1, d2, silence_level=3, **self.kwargs(model))
+        return self.cls()(d1, d2, silence_level=SILENCE, **self.kwargs(model))
 
     def queries(self, model):
         base = set(qlabel(q) for q in discover(ClimateDriver().cls()))
